@@ -2,11 +2,11 @@ module verifharness
 
 go 1.25.0
 
-require github.com/pkg/sftp v0.0.0
-
 require (
-	github.com/kr/fs v0.1.0 // indirect
-	golang.org/x/crypto v0.54.0 // indirect
+	github.com/pkg/sftp v0.0.0
+	golang.org/x/crypto v0.54.0
 )
+
+require github.com/kr/fs v0.1.0 // indirect
 
 replace github.com/pkg/sftp => /repo
